@@ -363,12 +363,96 @@ def bootstrap_chain_once(ctx, work, thorough):
     shutil.rmtree(d, ignore_errors=True)
 
 
+def order_bait(rng):
+    """A program whose lowering walks through the compiler's hash maps in many places: integer / enum matches in which several
+    distinct values have a guarded first arm (seeded change C15: the per-value decision chains were emitted in HashMap order),
+    many string constants, lambdas, generic instantiations, trait impls and globals. Deterministic text from rng."""
+    L = ["enum Color { Red, Green, Blue, Cyan, Magenta, Yellow, Black, White }",
+         "trait Shape { fn area(): Int64; }"]
+    ntypes = rng.randint(4, 9)
+    for i in range(ntypes):
+        L += ["class S%d { v: Int64 }" % i, "impl Shape for S%d { fn area(): Int64 { self.v * %di64 } }" % (i, i + 2)]
+    L += ["fn twice[T](x: T, f: (T): T): T { f(f(x)) }"]
+    for i in range(rng.randint(3, 8)):
+        L.append("let mut g%d: Int64 = %d;" % (i, rng.randint(-1000, 1000)))
+    nf = rng.randint(6, 14)
+    calls = []
+    for k in range(nf):
+        kind = rng.choice(["Int64", "Int32", "UInt8", "Color"])
+        nvals = rng.randint(2, 9)
+        if kind == "Color":
+            names = ["Red", "Green", "Blue", "Cyan", "Magenta", "Yellow", "Black", "White"]
+            vals = ["Color::" + v for v in rng.sample(names, min(nvals, 7))]
+            arg = "Color::" + rng.choice(names)
+        else:
+            lim = {"Int64": 10 ** 12, "Int32": 10 ** 9, "UInt8": 255}[kind]
+            lo = 0 if kind == "UInt8" else -lim
+            suffix = {"Int64": "", "Int32": "i32", "UInt8": "u8"}[kind]
+            raw = sorted(set(rng.randint(lo, lim) for _ in range(nvals)))
+            rng.shuffle(raw)
+            vals = [("%d%s" % (v, suffix)) if v >= 0 else ("-%d%s" % (-v, suffix)) for v in raw]
+            arg = rng.choice(vals)
+        L.append("fn m%d(x: %s, c: Int64): Int64 {" % (k, kind))
+        L.append("    match x {")
+        r = 0
+        for v in vals:
+            for _ in range(rng.randint(1, 2)):
+                L.append("        %s if c > %di64 => %di64," % (v, rng.randint(-5, 5), r))
+                r += 1
+            if rng.random() < 0.7:
+                L.append("        %s => %di64," % (v, r))
+                r += 1
+        L.append("        _ if c == 77i64 => %di64," % r)
+        L.append("        _ => %di64," % (r + 1))
+        L.append("    }")
+        L.append("}")
+        calls.append("m%d(%s, g%d)" % (k, arg, 0))
+    L.append("fn main() {")
+    L.append("    let mut acc = 0i64;")
+    for c in calls:
+        L.append("    acc = acc + %s;" % c)
+    for i in range(ntypes):
+        L.append("    let o%d = S%d(v = %di64) as Shape;" % (i, i, i + 1))
+        L.append("    acc = acc + o%d.area();" % i)
+    for i in range(rng.randint(3, 8)):
+        L.append("    let k%d = %di64;" % (i, rng.randint(1, 99)))
+        L.append("    acc = acc + twice[Int64](acc, |v: Int64|: Int64 { v + k%d });" % i)
+        L.append("    println(\"s%d-%d ${acc}\");" % (i, rng.randint(0, 10 ** 6)))
+    L.append("    println(twice[String](\"a\", |v: String|: String { v + \"b\" }));")
+    L.append("    println(\"${acc}\");")
+    L.append("}")
+    return "\n".join(L) + "\n"
+
+
+def generated_programs(ctx):
+    """Generator programs at a stable path (the input path is part of the emitted metadata)."""
+    from ..gen import build as gbuild
+    d = os.path.join(build.BUILD, "corpus", "gen15")
+    os.makedirs(d, exist_ok=True)
+    out = []
+    srcs = []
+    for i in range(ctx.pick(3, 12)):
+        srcs.append(("bait_s%s_%d" % (ctx.seed, i), order_bait(ctx.rng("bait", i))))
+    for i in range(ctx.pick(2, 10)):
+        g = gbuild.Gen(ctx.rng("typed", i), gbuild.ALL_FEATURES)
+        srcs.append(("typed_s%s_%d" % (ctx.seed, i), g.program(6, argv_mode=True).source()))
+    for name, src in srcs:
+        p = os.path.join(d, name + ".dora")
+        with open(p + ".tmp%d" % os.getpid(), "w") as fh:
+            fh.write(src)
+        os.replace(p + ".tmp%d" % os.getpid(), p)
+        out.append(p)
+    ctx.count("generated_programs", len(out))
+    return out
+
+
 def run(ctx):
     build.ensure_toolchain("rel")
     work = scratch("c15")
     ctx.rule = ("case = group = (input path, artifact kind package/.s/executable, code generator, collector, target); every group is built "
                 ">= 3 times by separate processes under the scenarios clean/dirty/deep(/again) and the sha256 of the outputs compared; "
-                "distinct = groups with all builds successful; inputs = touch programs + seeded slice of test/rt and bench")
+                "distinct = groups with all builds successful; inputs = touch programs + generated programs (hash-order bait: matches with several "
+                "guarded values, many impls/lambdas/instantiations/constants; typed-generator programs) + seeded slice of test/rt and bench")
     ctx.assumptions = [
         "the input path is spelled identically (absolute) in all builds of a group: the path string is part of the emitted "
         "function metadata by design (measured in extra.input_path_spelling_changes_output)",
@@ -377,7 +461,7 @@ def run(ctx):
     ]
     rng = ctx.rng("corpus")
     n = int(ctx.opts.get("programs", ctx.pick(56, 396)))
-    programs = A.touch_programs() + A.corpus_slice(rng, n)
+    programs = A.touch_programs() + generated_programs(ctx) + A.corpus_slice(rng, n)
     groups = []
     for i, p in enumerate(programs):
         groups.append(Group(p, "package", "-", None, None))
